@@ -26,7 +26,7 @@ EXPLANATION = (
     "comparison inside collection equality must go through the boolean-aware comparison, not raw ==; runtime.equals guards both "
     "operands and core = routes every pair through it; every family __eq__ reaches seq_equals behind symmetric guards only."
 )
-DECIDES = "hash agreement inside the sequential equality family, boolean-aware element comparison, operand-symmetric equality entry points"
+DECIDES = "hash agreement inside the sequential equality family, boolean-aware element comparison, operand-symmetric equality entry points, stored hashes never leave their process through pickling"
 DECLINED = "transitivity over concrete triples of mixed numbers (Python numeric tower); key conflation inside third-party hash maps"
 TRUSTED = ["FT-delegate: __hash__ of pyrsistent plist/pdeque read from their Python sources; pvectorc is native (opaque)", "Python: True == 1, hash(True) == hash(1)"]
 ASSUMPTIONS = []
@@ -119,6 +119,12 @@ def _canonical_hash(table, cname):
     if len(rets) != 1:
         return None, f"__hash__ has {len(rets)} returns", (rel, m)
     e = rets[0]
+    # memoisation idiom: `if self.F is None: self.F = <expr>` ... `return self.F`  (whether the stored
+    # value may leave the process is R6's business)
+    if e.startswith("self.") and e.count(".") == 1:
+        stores = [s for s in ast.walk(m) if isinstance(s, ast.Assign) and len(s.targets) == 1 and P.un(s.targets[0]) == e]
+        if len(stores) == 1 and isinstance(P.parent(stores[0]), ast.If) and P.un(P.parent(stores[0]).test) == f"{e} is None":
+            e = P.un(stores[0].value)
     if e == "hash(tuple(self))":
         return CANON, f"{cls.name}.__hash__ = {e}", (rel, m)
     if e == "hash(tuple(self._inner))":
@@ -204,6 +210,78 @@ def r5_set_hash_and_keyword_identity(ctx):
     hh = P.methods(kcls).get("__hash__")
     ok = hh is not None and [P.un(r.value) for r in ast.walk(hh) if isinstance(r, ast.Return)] == ["self._hash"] and "self._hash = hash_kw(name, ns)" in P.un(P.methods(kcls)["__init__"])
     ctx.ob("C05.R5", f"{KWF}::Keyword.__hash__ is hash_kw(name, ns)", KWF, getattr(hh, "lineno", 0), ok, "" if ok else "a keyword's hash is not a function of (name, ns): equal keywords could hash differently")
+
+
+PICKLE_HOOKS = ("__reduce__", "__reduce_ex__", "__getstate__")
+
+
+def _stored_hash_classes(ctx):
+    """(rel, class, field, defining expression) for every class of basilisp.lang whose __hash__
+    returns a field of the instance that is assigned from an expression calling a hash function."""
+    out = []
+    for rel in sorted(ctx.glob("src/basilisp/lang", ".py")):
+        for cls in P.all_classes(ctx.py(rel)):
+            h = P.methods(cls).get("__hash__")
+            if h is None:
+                continue
+            rets = [r.value for r in ast.walk(h) if isinstance(r, ast.Return) and r.value is not None]
+            fields = {P.un(r) for r in rets if isinstance(r, ast.Attribute) and P.un(r.value) == "self"}
+            for f in sorted(fields):
+                defs = [s for m in P.methods(cls).values() for s in ast.walk(m) if isinstance(s, (ast.Assign, ast.AnnAssign)) and s.value is not None
+                        and any(P.un(t) == f for t in (s.targets if isinstance(s, ast.Assign) else [s.target]))
+                        and any(isinstance(c, ast.Call) and (P.un(c.func) == "hash" or P.un(c.func).startswith("hash_")) for c in ast.walk(s.value))]
+                if defs:
+                    out.append((rel, cls, f, defs[0]))
+    return out
+
+
+@rule("C05.R6", floor=3)
+def r6_stored_hash_stays_in_its_process(ctx):
+    """A hash stored in the instance is a function of the process's string-hash seed.  Default
+    pickling copies every slot, so such an object unpickled by a process with another seed (the
+    compiler pickles constants without a dedicated emitter into cached bytecode; users pickle
+    data) stays = to a fresh equal value but hashes differently: map lookup and set membership
+    fail.  Every class that stores its hash must therefore define its pickled form (__reduce__ /
+    __getstate__) without the stored hash -- or pass it only as a hint to a constructor that
+    recomputes it (keyword_from_hash, checked by C14.R4)."""
+    classes = _stored_hash_classes(ctx)
+    table = {}
+    for rel in sorted(ctx.glob("src/basilisp/lang", ".py")):
+        for c in P.all_classes(ctx.py(rel)):
+            table.setdefault(c.name, (rel, c))
+    for rel, cls, field, d in classes:
+        inst = f"{rel}::{cls.name}::stored hash {field}"
+        hook = None
+        seen, work = set(), [cls]
+        while work and hook is None:
+            c = work.pop(0)
+            if c.name in seen:
+                continue
+            seen.add(c.name)
+            for hname in PICKLE_HOOKS:
+                if hname in P.methods(c):
+                    hook = P.methods(c)[hname]
+                    break
+            work.extend(table[P.un(b).split("[")[0].split(".")[-1]][1] for b in c.bases if P.un(b).split("[")[0].split(".")[-1] in table)
+        if hook is None:
+            ctx.ob("C05.R6", inst, rel, d.lineno, False,
+                   f"{cls.name} stores its hash ({P.un(d)[:60]}) and is pickled with its default state: an instance unpickled under another PYTHONHASHSEED is = to a fresh equal value but hashes differently",
+                   witness="pickle.dumps under PYTHONHASHSEED=1, pickle.loads under PYTHONHASHSEED=2: ({fresh: 1}).get(loaded) is None")
+            continue
+        txt = P.un(hook)
+        ok = field not in txt
+        why = ""
+        if not ok:
+            # the stored hash is passed on: acceptable only as a hint to a repo function that recomputes it
+            rets = [r.value for r in ast.walk(hook) if isinstance(r, ast.Return) and isinstance(r.value, ast.Tuple) and r.value.elts]
+            target = P.un(rets[0].elts[0]) if rets else None
+            tfn = P.find_def(ctx.py(rel), target) if target else None
+            recomputes = tfn is not None and any(isinstance(c, ast.Call) and (P.un(c.func) == "hash" or P.un(c.func).startswith("hash_")) for c in ast.walk(tfn))
+            ok = recomputes
+            why = "" if ok else f"{hook.name} hands the stored hash to {target}, which does not recompute it"
+        ctx.ob("C05.R6", inst, rel, hook.lineno, ok, why)
+    if not classes:
+        raise AnalysisError("no class with a stored hash found (Keyword/Symbol anchors vanished)")
 
 
 @rule("C05.R2", floor=3)
@@ -308,6 +386,21 @@ def r4_symmetric_predicate(ctx):
 
 
 SELFTEST = [
+    {"name": "symbol pickles its cached hash again (the repaired defect)", "file": "src/basilisp/lang/symbol.py", "expect": "C05.R6",
+     "old": "    def __reduce__(self):\n", "new": "    def _rebuild_args(self):\n"},
+    {"name": "tagged literal reduce hands the cached hash over", "file": "src/basilisp/lang/tagged.py", "expect": "C05.R6",
+     "old": "        return TaggedLiteral, (self._tag, self._form)\n", "new": "        return _restore, (self._tag, self._form, self._hash)\n"},
+    {"name": "vector caches its hash in a pickled slot", "file": VEC, "expect": "C05.R6",
+     "edits": [
+         {"file": VEC, "old": "        return hash(tuple(self._inner))\n", "new": "        if self._hash is None:\n            self._hash = hash(tuple(self._inner))\n        return self._hash\n"},
+     ]},
+    {"name": "twin: vector caches its hash and excludes it from the pickle", "file": VEC, "expect": None,
+     "edits": [
+         {"file": VEC, "old": "        return hash(tuple(self._inner))\n", "new": "        if self._hash is None:\n            self._hash = hash(tuple(self._inner))\n        return self._hash\n\n    def __reduce__(self):\n        return PersistentVector, (self._inner, self._meta)\n"},
+     ]},
+    {"name": "twin: symbol defines __getstate__/__setstate__ instead of __reduce__", "file": "src/basilisp/lang/symbol.py", "expect": None,
+     "old": "    def __reduce__(self):\n        # `_hash` depends on this process's string hash seed: rebuild the symbol (and\n        # its hash) in the process which unpickles it rather than copying the slot\n        return Symbol, (self._name, self._ns, self._meta)\n",
+     "new": "    def __getstate__(self):\n        return (self._name, self._ns, self._meta)\n\n    def __setstate__(self, st):\n        self.__init__(*st)\n"},
     {"name": "vector hash back on the native delegate (the repaired defect)", "file": VEC, "expect": "C05.R1",
      "old": "        return hash(tuple(self._inner))\n", "new": "        return hash(self._inner)\n"},
     {"name": "queue hashes by length", "file": QUE, "expect": "C05.R1",
